@@ -42,6 +42,17 @@ Theorem C13_wire_roundtrip : forall pk s m, In s all_schemas -> msg_dom pk s m =
   wire_dec pk all_schemas (frame_enc s m) = ROk (WKnown s m).
 Proof. exact extracted_wire_roundtrip. Qed.
 
+(** onion_message (type 513; hand schema pinned to the text of the OnionMessage and
+    onion_message::packet::Packet impls): round trip for ANY hop_data length, i.e. any packet of
+    66..65535 bytes whose key is a valid point. *)
+Theorem C13_onion_message_packet_roundtrip : forall pk b rest, 66 <= len b < 65536 -> pk (zdrop 1 (ztake 34 b)) = true ->
+  bdec pk BOmPacket (benc BOmPacket (VB b) ++ rest) = ROk (VB b, rest).
+Proof. exact om_packet_roundtrip. Qed.
+
+Theorem C13_onion_message_roundtrip : forall pk m, msg_dom pk s_OnionMessage m = true ->
+  msg_dec pk s_OnionMessage (msg_enc s_OnionMessage m) = ROk (m, []).
+Proof. exact onion_message_roundtrip. Qed.
+
 (** TLV streams in isolation (shared with C12). *)
 Theorem C13_tlv_roundtrip : forall pk es vals, tlvs_wf es = true -> tlv_dom pk es vals = true ->
   tlv_dec pk es (tlv_enc es vals) = ROk vals.
@@ -159,6 +170,15 @@ Example C13_domain_inhabited_update_add :
   msg_dom (fun _ => true) s_UpdateAddHTLC m = true /\
   List.length (msg_enc s_UpdateAddHTLC m) = (32 + 8 + 8 + 32 + 4 + 1366 + (1 + 1 + 33) + (5 + 1) + (5 + 1 + 1))%nat.
 Proof. split; vm_compute; reflexivity. Qed.
+
+Example C13_onion_message_example :
+  let pkt := 0 :: (2 :: repeat 9 32) ++ repeat 5 4097 ++ repeat 7 32 in
+  let m := mk_mval [[VB (3 :: repeat 8 32)]; [VB pkt]] [] [] in
+  msg_dom (fun _ => true) s_OnionMessage m = true /\
+  List.length (msg_enc s_OnionMessage m) = (33 + 2 + 66 + 4097)%nat /\
+  (* a declared packet length one larger than what follows: ShortRead, not a partial message *)
+  msg_dec (fun _ => true) s_OnionMessage ((3 :: repeat 8 32) ++ [0; 67] ++ repeat 1 66) = RErr "ShortRead".
+Proof. repeat split; vm_compute; reflexivity. Qed.
 
 (** Non-vacuity of the rejection premises: type 4 is unknown and even for channel_ready. *)
 Example C13_reject_example :
